@@ -6,7 +6,7 @@
    first).  Both were reproduced against the code (corpus/C17_directed) and are repaired by the "fix:" commit
    b0086b9 in /repo; the model below is the model of the repaired tree, and the two former refutation witnesses are
    now the Examples at the end (the late bar is pushed at once, both successors are released). *)
-From MPB Require Import Base BaseProofs BarState Container ContainerProofs ContainerFlush.
+From MPB Require Import Base BaseProofs BarState Container ContainerProofs ContainerFlush ContainerCover.
 
 (* not displayed while parked: a parked bar is in none of the places rows are drawn from *)
 Theorem C17_successor_hidden_while_parked : forall p a d evs s pre x,
@@ -83,6 +83,16 @@ Theorem C17_release_recorded_for_good : forall s e s' a pa,
   lookup a (released s') = Some pa \/ (exists nrows rmf np, e = CT_FLUSHBAR a 1 nrows rmf np false).
 Proof. exact released_stable. Qed.
 Print Assumptions C17_release_recorded_for_good.
+
+(* always eventually displayed: once a queued bar is no longer parked (released by the hand-over, or never parked because it
+   came late) it is never parked again, and it is in the heap of every ordered iteration that begins afterwards — the next
+   frame and every frame after it — until it has left for good through its own last frame *)
+Theorem C17_displayed_from_the_next_frame_on : forall p a d evs s x evs' s1 hl s2,
+  run (init_cst p a d) evs = Some s -> lookup x (bars s) <> None -> ~ In x (map snd (queue s)) ->
+  run s evs' = Some s1 -> step s1 (HM_ITERREQ true hl) = Some s2 ->
+  In x (iter_heap s2) \/ In x (retired s2).
+Proof. exact unparked_bar_is_in_every_later_iteration. Qed.
+Print Assumptions C17_displayed_from_the_next_frame_on.
 
 (* ---- the two histories that failed on the pinned tree (D7), now accepted with the right outcome ---- *)
 (* bar 0 (removed on completion) completes and leaves, then bar 1 is created to queue after it: its push is in flight,
